@@ -16,6 +16,7 @@ CFG = {
             "for 5 scopes x 2 starting envs. exhaustive: every single entry over 5 scopes x 5 behaviours x 3 names, on an empty and on a "
             "fully populated old env (thorough: + all pairs on one name over scope^2 x behaviour^2); sampled: 5 000 / 100 000 (old,new) pairs "
             "+ correlated pairs (new = old minus a scope / entries / changed values) + every way of dropping scopes from a fully populated env; 7 probe scopes incl. process types named build/launch; "
+            "+ unrelated directories of the layer named like / near the env directories (env.d, env.local, env.launch.old, ENV, .env, exec.d ... empty or holding a file) beside writes into every scope; "
             "+ big environments (17..129 quick / 16..257 thorough variables with 1-3 behaviours each in one scope, over an old env that is disjoint / overlapping / identical); "
             "with names incl. dots, leading dot, trailing dot, '..', space, non-UTF-8. R cases: 2 000 / 30 000 spec-shaped env directories "
             "with arbitrary file names (known/unknown/empty/non-UTF-8 extensions, leading dots, nested dots). "
